@@ -112,6 +112,10 @@ def leInf (b : Option Int) (x : Int) : Bool :=
 /-- `self.splits[i+1] + post_halo` (∞ stays ∞) -/
 def addInf (b : Option Int) (h : Int) : Option Int := b.map (· + h)
 
+/-- `splitNonUniform(splits=<Fiber>)`: `splits.getCoords()` — boundaries handed over as a fiber are all
+    its stored coordinates, whatever their payloads (explicit defaults, empty sub-fibers included) -/
+def fiberCoords {ρ : Type} (f : Fib Int ρ) : List Int := f.map (·.1)
+
 /-- the `while i < len(splits)` loop on the remaining boundaries `splits[i:]`; returns `inds` -/
 def nuInner (as ae pre post c : Int) : Nat → List Int → List Nat
   | _, [] => []
